@@ -28,7 +28,7 @@ func newEnv(in io.Reader, out io.Writer) *object.Env {
 }
 
 // evalFuel bounds the number of Eval steps of one evaluation (hook: build tag verif).
-var evalFuel int64 = 150000
+var evalFuel int64 = 20000
 
 type evalResult struct {
 	Kind   string `json:"kind"` // value | error | syntax | panic
